@@ -81,7 +81,7 @@ class Opaque(object):
 PURE_BUILTINS = {
     'range': range, 'len': len, 'dict': dict, 'list': list, 'tuple': tuple, 'sorted': sorted, 'set': set,
     'int': int, 'str': str, 'min': min, 'max': max, 'zip': zip, 'enumerate': enumerate, 'map': None, 'filter': None,
-    'True': True, 'False': False, 'None': None, 'sum': sum, 'abs': abs, 'bool': bool, 'ord': ord, 'chr': chr, 'type': type,
+    'True': True, 'False': False, 'None': None, 'sum': sum, 'abs': abs, 'bool': bool, 'ord': ord, 'chr': chr, 'type': type, 'isinstance': isinstance,
 }
 SAFE_METHODS = {
     list: {'index', 'count', 'copy'}, tuple: {'index', 'count'},
